@@ -36,7 +36,7 @@ PROPS = {
     "C12": dict(worlds=[("arena", 1.0)], quick=60_000, thorough=3_000_000),
     "C13": dict(worlds=[("arena", 1.0)], quick=60_000, thorough=3_000_000),
     "C14": dict(worlds=[("arena", 0.7), ("coll", 0.3)], quick=50_000, thorough=2_500_000),
-    "C15": dict(worlds=[("coll", 1.0)], quick=300_000, thorough=12_000_000),
+    "C15": dict(worlds=[("coll", 0.8), ("strs", 0.2)], quick=300_000, thorough=12_000_000),
     "C16": dict(worlds=[("coll", 0.7), ("strs", 0.3)], quick=300_000, thorough=12_000_000),
     "C17": dict(worlds=[("lock", 1.0)], quick=200_000, thorough=8_000_000),
     "C18": dict(worlds=[("arena", 1.0)], quick=60_000, thorough=3_000_000),
@@ -112,7 +112,8 @@ def run_replay(binary, path, timeout=60):
         return ("viol", classes, p.stdout)
     if p.returncode == 2:
         return ("harness", [], p.stderr)
-    return ("crash", [crash_class(p.returncode, p.stderr)], p.stderr)
+    # violations announced before the process died are kept next to the crash class
+    return ("crash", classes + [crash_class(p.returncode, p.stderr)], p.stderr)
 
 
 def crash_class(rc, stderr):
@@ -275,14 +276,20 @@ def run_batch(binary, world, prop, tier, seed, total, jobs, workdir):
         # the worker died: attribute it to the run it had begun
         last = None
         done = 0
+        early = []  # violations the dead run had announced before it died
         try:
             with open(w["prog"], encoding="utf-8", errors="replace") as f:
                 for line in f:
                     parts = line.split()
                     if parts and parts[0] == "BEGIN":
                         last = (int(parts[1]), int(parts[2]))
+                        early = []
                     elif parts and parts[0] == "END":
                         done += 1
+                        early = []
+                    elif parts and parts[0] == "EARLY":
+                        f3 = line.rstrip("\n").split("\t")
+                        early.append((f3[0].split()[1], f3[2] if len(f3) > 2 else ""))
         except FileNotFoundError:
             pass
         if last is None:
@@ -290,6 +297,8 @@ def run_batch(binary, world, prop, tier, seed, total, jobs, workdir):
             log(f"HARNESS-ERROR: worker died (rc={rc}) before starting a run")
             sys.exit(2)
         crashes.append(dict(world=world, run_seed=last[0], index=last[1], cls=crash_class(rc, se), stderr=se[-2000:]))
+        for cls, msg in early:
+            crashes.append(dict(world=world, run_seed=last[0], index=last[1], cls=cls, stderr="(announced before the worker died) " + msg))
         summaries.append(dict(world=world, prop=prop, runs=done, steps=0, wall_s=0, counters={"worker.died": 1}, sigs=[], states=[], samples=[], violations=[]))
         nxt = last[1] + 1
         end = w["start"] + w["count"]
